@@ -745,6 +745,9 @@ def write_recv(E, callnode, newval, st):
 def construct(E, cref, args, kwargs, st, node):
     from .engine import FuncV, Raised
     clsname = cref.node.name
+    extc = E.externals.get("class:" + clsname)
+    if extc is not None:
+        return extc(E, args, kwargs, st, node)
     for b in cref.node.bases:
         bn = b.id if isinstance(b, ast.Name) else (b.attr if isinstance(b, ast.Attribute) else None)
         if bn in ("IntEnum", "Enum"):
